@@ -575,7 +575,32 @@ def unit_bounded_deferred(U):
     U.bounded_result("C06.bounded.deferred_consumption", "a region / limit iterator yields its own call's set whenever it is consumed", "5 entry points x {obtained first, lock-step, 5 intervening queries}", cases, fails)
 
 
-UNITS = [("bounded.deferred", unit_bounded_deferred), ("schema", unit_schema), ("bounded.after_update", unit_bounded_after_update), ("bounded.debug_logging", unit_bounded_logging), ("limit", unit_limit), ("region", unit_region), ("sqlmodel", unit_sqlmodel_validation), ("bounded", unit_bounded), ("bounded.straddle", unit_bounded_straddle)]
+def unit_bounded_query_sequences(U):
+    """Bounded: what a limit= / region query returns does not depend on the queries made before it in the process: intervals
+    that share their smallest enclosing bin but cover different 128 kb bins, asked one after the other, in both orders, on
+    one FeatureDB and on a fresh one"""
+    import gffutils.feature as F_
+    fails, cases = [], 0
+    K = 131072
+    mk = lambda i, a, b: F_.Feature(seqid="chr1", source="s", featuretype="exon", start=a, end=b, strand="+", attributes={"ID": [i]})
+    feats = [mk("f%d" % k, k * K + 10, k * K + 500) for k in range(6)] + [mk("x%d" % k, k * K - 50, k * K + 50) for k in range(1, 6)] + [mk("big", 2 ** 29 + 5, 2 ** 29 + 900)]
+    queries = [("chr1", 100, K + 1000), ("chr1", 2 * K + 5000, 3 * K + 70000), ("chr1", 4 * K + 1, 5 * K + 600), ("chr1", 1, 2 ** 29 + 100), ("chr1", K - 10, 4 * K + 10), ("chr1", 3 * K + 600, 4 * K - 100)]
+    spec = lambda q: sorted(f.attributes["ID"][0] for f in feats if f.start <= q[2] and f.end >= q[1])
+    for order in (queries, queries[::-1], queries[1:] + queries[:1]):
+        for same_db in (True, False):
+            db = gffutils.create_db(feats, ":memory:")
+            for q in order:
+                if not same_db:
+                    db = gffutils.create_db(feats, ":memory:")
+                for name, fn in (("all_features(limit)", lambda: db.all_features(limit=q)), ("features_of_type(limit)", lambda: db.features_of_type("exon", limit="%s:%d-%d" % q)), ("region", lambda: db.region(q))):
+                    cases += 1
+                    got = sorted(f.id for f in fn())
+                    if got != spec(q):
+                        fails.append({"case": {"call": name, "interval": list(q), "queries made before in this process": [list(x) for x in order[:order.index(q)]], "same FeatureDB": same_db}, "expected": spec(q), "observed": got})
+    U.bounded_result("C06.bounded.query_sequences", "a limit / region query returns the statement's set whatever queries came before it", "6 intervals across 128 kb bin boundaries x 3 orders x same / fresh FeatureDB x 3 entry points", cases, fails)
+
+
+UNITS = [("bounded.query_sequences", unit_bounded_query_sequences), ("bounded.deferred", unit_bounded_deferred), ("schema", unit_schema), ("bounded.after_update", unit_bounded_after_update), ("bounded.debug_logging", unit_bounded_logging), ("limit", unit_limit), ("region", unit_region), ("sqlmodel", unit_sqlmodel_validation), ("bounded", unit_bounded), ("bounded.straddle", unit_bounded_straddle)]
 
 
 def replay_file(doc):
